@@ -682,3 +682,104 @@ theorem drain_spec {cmp : Nat → Nat → Int} (tp : TotalPreorder cmp) :
 
 end PQueue
 end CC
+
+/-! ## facts about the multiset spec (`Spec.PQ`) used by `Properties/C10.lean` -/
+namespace CC.Spec.PQFacts
+open CC CC.Spec
+open CC.Spec.PQ (Op Out IsMax Step Run pushed popped)
+
+theorem conservation {cmp : Nat → Nat → Int} (ops : List Op) (items : List Nat) (outs : List Out)
+    (items' : List Nat) (h : Run cmp items ops outs items') :
+    (items' ++ popped ops outs).Perm (items ++ pushed ops outs) := by
+  induction ops generalizing items outs with
+  | nil =>
+    obtain ⟨h1, h2⟩ := h
+    subst h1; subst h2; simp [popped, pushed]
+  | cons op ops ih =>
+    obtain ⟨o, os, mid, ho, hstep, hrun⟩ := h
+    subst ho
+    have ih' := ih mid os hrun
+    cases op with
+    | push x =>
+      simp only [popped, pushed]
+      rcases hstep with ⟨e1, e2⟩ | ⟨e1, e2⟩
+      · subst e1
+        simp only [if_true]
+        refine ih'.trans ((List.Perm.append_right _ e2).trans ?_)
+        simpa using (List.perm_middle (a := x) (l₁ := items) (l₂ := pushed ops os)).symm
+      · have : ¬ o.st = .ok := by rcases e1 with e1 | e1 <;> rw [e1] <;> simp
+        simp only [this, if_false]
+        exact ih'.trans (List.Perm.append_right _ e2)
+    | top =>
+      simp only [popped, pushed]
+      exact ih'.trans (List.Perm.append_right _ hstep.1)
+    | pop =>
+      simp only [popped, pushed]
+      rcases hstep with ⟨e1, e2, e3⟩ | ⟨x, e1, _, e3⟩
+      · subst e1; subst e2; subst e3
+        simpa using ih'
+      · subst e1
+        simp only
+        refine (List.perm_middle (a := x) (l₁ := items') (l₂ := popped ops os)).trans ?_
+        refine (List.Perm.cons x ih').trans ?_
+        exact List.Perm.append_right _ e3.symm
+
+theorem pop_all_sorted {cmp : Nat → Nat → Int} (n : Nat) (items : List Nat) (hn : items.length = n)
+    (outs : List Out) (items' : List Nat) (h : Run cmp items (List.replicate n .pop) outs items') :
+    items' = [] ∧ (outs.all fun o => o.st == .ok) = true ∧
+    (outs.filterMap (·.val)).Perm items ∧ (outs.filterMap (·.val)).Pairwise (fun a b => 0 ≤ cmp a b) := by
+  induction n generalizing items outs with
+  | zero =>
+    obtain ⟨h1, h2⟩ := h
+    have : items = [] := List.eq_nil_of_length_eq_zero hn
+    subst h1; subst h2; subst this
+    simp
+  | succ n ih =>
+    obtain ⟨o, os, mid, ho, hstep, hrun⟩ := h
+    subst ho
+    rcases hstep with ⟨e1, _, _⟩ | ⟨x, e1, e2, e3⟩
+    · subst e1; simp at hn
+    · subst e1
+      have hlen : mid.length = n := by
+        have := e3.length_eq; simp only [List.length_cons] at this; omega
+      have ih' := ih mid hlen os hrun
+      refine ⟨ih'.1, by simp [ih'.2.1], ?_, ?_⟩
+      · simp only [List.filterMap_cons]
+        exact (List.Perm.cons x ih'.2.2.1).trans e3.symm
+      · simp only [List.filterMap_cons]
+        refine List.Pairwise.cons ?_ ih'.2.2.2
+        intro y hy
+        have : y ∈ mid := ih'.2.2.1.mem_iff.1 hy
+        exact e2.2 y (e3.mem_iff.2 (List.mem_cons_of_mem _ this))
+
+theorem maxOf_isMax {cmp : Nat → Nat → Int} (tp : TotalPreorder cmp) (items : List Nat) :
+    (items = [] ∧ PQ.maxOf cmp items = none) ∨ (∃ x, PQ.maxOf cmp items = some x ∧ IsMax cmp items x) := by
+  induction items with
+  | nil => left; exact ⟨rfl, rfl⟩
+  | cons a as ih =>
+    right
+    rcases ih with ⟨e1, e2⟩ | ⟨y, e1, e2⟩
+    · subst e1
+      refine ⟨a, by simp [PQ.maxOf], List.mem_cons_self .., ?_⟩
+      intro z hz
+      simp only [List.mem_singleton] at hz
+      subst hz
+      by_cases h : cmp z z ≤ 0
+      · exact tp.flip _ _ h
+      · omega
+    · simp only [PQ.maxOf, e1]
+      by_cases hc : 0 ≤ cmp a y
+      · refine ⟨a, by simp [hc], List.mem_cons_self .., ?_⟩
+        intro z hz
+        cases hz with
+        | head => by_cases h : cmp a a ≤ 0
+                  · exact tp.flip _ _ h
+                  · omega
+        | tail _ hz' => exact tp.trans _ _ _ hc (e2.2 z hz')
+      · refine ⟨y, by simp [hc], List.mem_cons_of_mem _ e2.1, ?_⟩
+        intro z hz
+        cases hz with
+        | head => exact tp.flip _ _ (by omega)
+        | tail _ hz' => exact e2.2 z hz'
+
+end CC.Spec.PQFacts
